@@ -60,7 +60,9 @@ var Wrappers = []string{"syscall.Syscall(SB)", "syscall.Syscall6(SB)", "syscall.
 // fillers match none of the documented shapes.
 var fillers = []string{"SUBQ $0x18, SP", "LEAQ 0x10(SP), BP", "CMPQ SP, 0x10(R14)", "JMP 0x45e3a0", "NOPL", "MOVQ BX, 0x8(SP)", "MOVQ $0x7, CX", "ADDQ $0x18, SP",
 	"MOVL $0x3, DX", "XORL CX, CX", "CALL runtime.morestack_noctxt.abi0(SB)", "MOVQ 0x20(SP), AX", "TESTQ AX, AX", "JNE 0x401020", "PUSHQ BP", "POPQ BP", "INT $0x3",
-	"MOVQ $0x10, 0x8(SP)", "CALL main.helper(SB)", "MOVUPS X15, 0x28(SP)"}
+	"MOVQ $0x10, 0x8(SP)", "CALL main.helper(SB)", "MOVUPS X15, 0x28(SP)",
+	// symbols that contain the text of a move (the look-behind reads these lines too)
+	"MOVQ main.MOVED(SB), CX", "JMP main.MOVMOV(SB)", "MOVQ $main.MOVABLE(SB), DX", "CALL main.reMOVe.MOVE(SB)", "LEAQ main.MOVQ.MOVL(SB), DI"}
 
 type emitter struct {
 	b    strings.Builder
